@@ -59,6 +59,7 @@ type rewriter struct {
 	base  string
 	sites int
 	std   int
+	maps  int
 	warn  []string
 }
 
@@ -261,6 +262,69 @@ func (r *rewriter) unsupported(f *ast.File) {
 	})
 }
 
+// mapRange turns `for k, v := range m` over a map into a loop over
+// simhook.Keys(m): the runtime's random iteration order becomes an order that
+// depends only on the keys and on the simulator's choice. Entries deleted
+// while the loop runs are skipped, as the language prescribes; entries added
+// meanwhile are not visited (the language leaves that open).
+func (r *rewriter) mapRange(s *ast.RangeStmt) {
+	tv, ok := r.info.Types[s.X]
+	if !ok || tv.Type == nil {
+		return
+	}
+	if _, isMap := tv.Type.Underlying().(*types.Map); !isMap {
+		return
+	}
+	pos := r.fset.Position(s.Pos())
+	if s.Tok != token.DEFINE && s.Key != nil {
+		r.warn = append(r.warn, fmt.Sprintf("%s: range over a map with '=' not made reproducible", pos))
+		return
+	}
+	simple := func(e ast.Expr) bool {
+		for {
+			switch x := e.(type) {
+			case *ast.Ident:
+				return true
+			case *ast.SelectorExpr:
+				e = x.X
+			case *ast.ParenExpr:
+				e = x.X
+			case *ast.StarExpr:
+				e = x.X
+			default:
+				return false
+			}
+		}
+	}
+	if !simple(s.X) {
+		r.warn = append(r.warn, fmt.Sprintf("%s: range over a map-valued call not made reproducible", pos))
+		return
+	}
+	blank := func(e ast.Expr) bool {
+		id, isID := e.(*ast.Ident)
+		return e == nil || (isID && id.Name == "_")
+	}
+	m := s.X
+	key := ast.Expr(ast.NewIdent("simK"))
+	if !blank(s.Key) {
+		key = s.Key
+	}
+	var pre []ast.Stmt
+	okID := ast.NewIdent("simOK")
+	val := ast.Expr(ast.NewIdent("_"))
+	if !blank(s.Value) {
+		val = s.Value
+	}
+	// v, simOK := m[k]; if !simOK { continue }
+	pre = append(pre,
+		&ast.AssignStmt{Lhs: []ast.Expr{val, okID}, Tok: token.DEFINE, Rhs: []ast.Expr{&ast.IndexExpr{X: m, Index: key}}},
+		&ast.IfStmt{Cond: &ast.UnaryExpr{Op: token.NOT, X: okID}, Body: &ast.BlockStmt{List: []ast.Stmt{&ast.BranchStmt{Tok: token.CONTINUE}}}})
+	s.X = &ast.CallExpr{Fun: &ast.SelectorExpr{X: ast.NewIdent("simhook"), Sel: ast.NewIdent("Keys")}, Args: []ast.Expr{m}}
+	s.Key, s.Value, s.Tok = ast.NewIdent("_"), key, token.DEFINE
+	s.Body.List = append(pre, s.Body.List...)
+	r.maps++
+}
+
 func (r *rewriter) file(f *ast.File) {
 	r.unsupported(f)
 	ast.Inspect(f, func(n ast.Node) bool {
@@ -274,6 +338,8 @@ func (r *rewriter) file(f *ast.File) {
 				b.Args[0] = &ast.CallExpr{Fun: &ast.SelectorExpr{X: ast.NewIdent("simhook"), Sel: ast.NewIdent("HeldFn")}, Args: []ast.Expr{b.Args[0]}}
 				r.std++
 			}
+		case *ast.RangeStmt:
+			r.mapRange(b)
 		case *ast.BlockStmt:
 			b.List = r.stmts(b.List)
 		case *ast.CaseClause:
@@ -300,7 +366,7 @@ func main() {
 		fmt.Fprintln(os.Stderr, err)
 		os.Exit(1)
 	}
-	totalSites, totalStd := 0, 0
+	totalSites, totalStd, totalMaps := 0, 0, 0
 	var warns []string
 	for _, p := range pkgs {
 		if len(p.Errors) > 0 {
@@ -318,7 +384,7 @@ func main() {
 			r := &rewriter{skip: map[ast.Node]bool{}, fset: p.Fset, info: p.TypesInfo, base: filepath.Base(filepath.Dir(path)) + "/" + filepath.Base(path)}
 			r.file(f)
 			warns = append(warns, r.warn...)
-			if r.sites == 0 && r.std == 0 {
+			if r.sites == 0 && r.std == 0 && r.maps == 0 {
 				continue
 			}
 			has := false
@@ -342,10 +408,11 @@ func main() {
 			}
 			totalSites += r.sites
 			totalStd += r.std
+			totalMaps += r.maps
 		}
 	}
 	for _, w := range warns {
 		fmt.Println("warning:", w)
 	}
-	fmt.Printf("lockinject: %d yield points, %d standard lock sites\n", totalSites, totalStd)
+	fmt.Printf("lockinject: %d yield points, %d standard lock sites, %d map ranges\n", totalSites, totalStd, totalMaps)
 }
